@@ -38,7 +38,7 @@ class Emitter(object):
     def off(self, name, callback=None):
         events = self._e[name]
         live_events = []
-        if events and callback:
+        if events and callback is not None:
             for event in events:
                 if event.fn != callback and ((not hasattr(event.fn, '_')) or event.fn._ != callback):
                     live_events.append(event)
